@@ -1555,6 +1555,54 @@ pub fn describe_sent_and_failed(w: &World, sender: usize, hash: &lightning::type
 	}
 }
 
+/// C05, "every secret received from the peer is checked against the commitment point the peer
+/// announced": a peer that announces a *second, different* point for the same commitment number
+/// (a repeated `channel_ready`) cannot be honoured twice - the node must fail the channel at that
+/// moment instead of silently replacing what it stored.
+#[derive(Default)]
+pub struct ForgedPointOracle {
+	/// (to, from, channel) -> variant of the first forged channel_ready that was handed over
+	first: BTreeMap<(usize, usize, String), u8>,
+}
+impl Oracle for ForgedPointOracle {
+	fn name(&self) -> &'static str {
+		"announced-point-consistency"
+	}
+	fn observe(&mut self, _w: &World, obs: &[Obs]) -> Result<(), Failure> {
+		for (i, o) in obs.iter().enumerate() {
+			if let Obs::Api { node, what, detail, .. } = o {
+				if let Some(rest) = what.strip_prefix("forged-channel-ready:") {
+					let mut it = rest.split(':');
+					let from: usize = it.next().and_then(|x| x.parse().ok()).unwrap_or(0);
+					let variant: u8 = it.next().and_then(|x| x.parse().ok()).unwrap_or(0);
+					let key = (*node, from, detail.clone());
+					// did the node answer this message with an error?
+					let errored = obs[i..].iter().any(|x| matches!(x, Obs::Sent { from: f, to: t, wire: Wire::Error(_) } if f == node && *t == from))
+						|| obs[..i].iter().rev().take(4).any(|x| matches!(x, Obs::Sent { from: f, to: t, wire: Wire::Error(_) } if f == node && *t == from));
+					match self.first.get(&key) {
+						None => {
+							if !errored {
+								self.first.insert(key, variant);
+							}
+						},
+						Some(v) if *v != variant => {
+							if !errored {
+								return Err(Failure::new(
+									"announced-point-consistency",
+									format!("node {} accepted a second channel_ready from node {} announcing a different next_per_commitment_point without failing the channel", node, from),
+								));
+							}
+							crate::runner::witness("c05-conflicting-point-rejected");
+						},
+						_ => {},
+					}
+				}
+			}
+		}
+		Ok(())
+	}
+}
+
 /// C09 during channel opening: neither `channel_ready` nor the funding transaction leaves a node
 /// while the initial persistence of that channel's monitor is still outstanding on it (the oracle
 /// learns the channels as they appear, so it can watch an explored opening flow).
